@@ -6,6 +6,7 @@ import (
 	"errors"
 	"fmt"
 	"math"
+	"sort"
 
 	pb "github.com/lni/dragonboat/v4/raftpb"
 )
@@ -146,6 +147,21 @@ func (s *sim) observe(r *simReplica) {
 	if rf.term < r.lastTerm {
 		s.fail("term-regressed", "replica %d term %d after %d", r.id, rf.term, r.lastTerm)
 	}
+	startedCampaign := (rf.state == candidate || rf.state == preVoteCandidate) && (r.lastState != rf.state || rf.term != r.lastTerm)
+	if startedCampaign {
+		// C03/C07: no campaign while a committed membership change is unapplied
+		l := rf.log
+		lo := r.applied + 1
+		if lo < l.firstIndex() {
+			lo = l.firstIndex()
+		}
+		for i := lo; i <= l.committed && i <= l.lastIndex(); i++ {
+			if e, ok := s.logEntry(r, i); ok && e.Type == pb.ConfigChangeEntry {
+				s.fail("campaign-with-unapplied-config-change", "replica %d starts a campaign (term %d) although the committed config change at index %d is not applied (applied %d, committed %d)",
+					r.id, rf.term, i, r.applied, l.committed)
+			}
+		}
+	}
 	becameLeader := rf.state == leader && (r.lastState != leader || rf.term != r.lastTerm)
 	r.lastTerm = rf.term
 	r.lastState = rf.state
@@ -231,6 +247,36 @@ func (s *sim) observe(r *simReplica) {
 			s.fail("two-pending-config-changes", "leader %d (term %d) has %d config change entries beyond its applied index %d",
 				r.id, rf.term, cnt, r.applied)
 		}
+	}
+}
+
+// checkRaftMembership: C07/C18. The raft core's replication targets are exactly
+// the applied membership (they change only when a change is applied or a
+// snapshot is restored).
+func (s *sim) checkRaftMembership(r *simReplica, when string) {
+	rf := r.raft()
+	same := func(a map[uint64]*remote, b map[uint64]string) bool {
+		if len(a) != len(b) {
+			return false
+		}
+		for k := range a {
+			if _, ok := b[k]; !ok {
+				return false
+			}
+		}
+		return true
+	}
+	if !same(rf.remotes, r.mem.Addresses) || !same(rf.nonVotings, r.mem.NonVotings) || !same(rf.witnesses, r.mem.Witnesses) {
+		ids := func(m map[uint64]*remote) []uint64 {
+			var out []uint64
+			for k := range m {
+				out = append(out, k)
+			}
+			sort.Slice(out, func(i, j int) bool { return out[i] < out[j] })
+			return out
+		}
+		s.fail("raft-membership-differs-from-applied", "replica %d %s: raft core has voters %v non-votings %v witnesses %v, applied membership is %s",
+			r.id, when, ids(rf.remotes), ids(rf.nonVotings), ids(rf.witnesses), r.mem)
 	}
 }
 
@@ -375,6 +421,20 @@ func (r *simReplica) ackIsCommitHint(m pb.Message) bool {
 // onDeliver observes a message about to be handled by its destination.
 func (s *sim) onDeliver(r *simReplica, m pb.Message) {
 	switch m.Type {
+	case pb.HeartbeatResp:
+		if m.Hint != 0 && r.running() && r.raft().state == leader && m.Term == r.raft().term {
+			key := [2]uint64{r.id, r.raft().term}
+			if s.hbAcks[key] == nil {
+				s.hbAcks[key] = map[uint64]map[uint64]bool{}
+			}
+			if s.hbAcks[key][m.Hint] == nil {
+				s.hbAcks[key][m.Hint] = map[uint64]bool{}
+			}
+			// a confirmation counts when its sender is a voting member at the time it answers
+			if r.mem.voting()[m.From] {
+				s.hbAcks[key][m.Hint][m.From] = true
+			}
+		}
 	case pb.RequestVoteResp:
 		if !m.Reject {
 			key := [2]uint64{r.id, m.Term}
@@ -383,6 +443,50 @@ func (s *sim) onDeliver(r *simReplica, m pb.Message) {
 			}
 			s.grants[key][m.From] = true
 		}
+	}
+}
+
+// checkReadQuorum: C06/C18. A leader releases a read context only after a quorum
+// of *voting* members (harness's view of the leader's applied membership, judged
+// when each of them answered) answered a heartbeat carrying that context or one
+// queued behind it, counting itself. queue is the leader's queue of pending
+// contexts just before the confirmation that triggered the release.
+func (s *sim) checkReadQuorum(l *simReplica, ctxLow uint64, queue []uint64, how string) {
+	if !l.running() || l.raft().state != leader {
+		return
+	}
+	voting := l.mem.voting()
+	if len(voting) <= 1 {
+		return
+	}
+	pos := -1
+	for i, c := range queue {
+		if c == ctxLow {
+			pos = i
+		}
+	}
+	if pos < 0 {
+		return
+	}
+	acks := map[uint64]bool{}
+	all := s.hbAcks[[2]uint64{l.id, l.raft().term}]
+	for _, c := range queue[pos:] {
+		for f := range all[c] {
+			acks[f] = true
+		}
+	}
+	cnt := 1
+	for v := range acks {
+		if v != l.id {
+			cnt++
+		}
+	}
+	if cnt < len(voting)/2+1 {
+		s.fail("read-confirmed-without-voting-quorum", "leader %d (term %d) released read ctx %d (%s) with confirmations from %d of %d voting members (membership %s, heartbeat responses from voting members %v)",
+			l.id, l.raft().term, ctxLow, how, cnt, len(voting), l.mem, acks)
+	}
+	if cnt == len(voting)/2+1 {
+		s.flag("min-quorum-read-confirmation")
 	}
 }
 
